@@ -154,7 +154,22 @@ func LoadMint(config Config) (*Mint, error) {
 				return nil, err
 			}
 			if keyset.Active {
-				mint.activeKeyset = keyset
+				// more than one active keyset means that a rotation was interrupted after
+				// saving the new keyset. Finish it: keep the newest one as active.
+				if mint.activeKeyset != nil {
+					stale := keyset
+					if keyset.DerivationPathIdx > mint.activeKeyset.DerivationPathIdx {
+						stale = mint.activeKeyset
+						mint.activeKeyset = keyset
+					}
+					stale.Active = false
+					if err := db.UpdateKeysetActive(stale.Id, false); err != nil {
+						return nil, fmt.Errorf("could not update active state of keyset in db: %v", err)
+					}
+					mint.keysets[stale.Id] = *stale
+				} else {
+					mint.activeKeyset = keyset
+				}
 			}
 			mint.keysets[keyset.Id] = *keyset
 		}
@@ -1433,18 +1448,10 @@ func (m *Mint) RotateKeyset(fee uint) (*nut02.Keyset, error) {
 	if err != nil {
 		return nil, fmt.Errorf("error generating new keyset: %v", err)
 	}
-	m.logInfof("setting keyset '%v' to inactive", currentActiveKeyset.Id)
 
-	// deactivate previous one and change it in db
-	currentActiveKeyset.Active = false
-	m.keysets[currentActiveKeyset.Id] = *currentActiveKeyset
-	if err := m.db.UpdateKeysetActive(currentActiveKeyset.Id, false); err != nil {
-		return nil, fmt.Errorf("could not update active state of keyset in db: %v", err)
-	}
-	m.activeKeyset = newKeyset
-
-	m.keysets[newKeyset.Id] = *newKeyset
-
+	// save the new keyset first and deactivate the previous one after. If interrupted in
+	// between, the db has two active keysets and LoadMint finishes the rotation. The other
+	// way around the mint could be left without an active keyset.
 	hexseed := hex.EncodeToString(seed)
 	activeDbKeyset := storage.DBKeyset{
 		Id:                newKeyset.Id,
@@ -1457,6 +1464,17 @@ func (m *Mint) RotateKeyset(fee uint) (*nut02.Keyset, error) {
 	if err := m.db.SaveKeyset(activeDbKeyset); err != nil {
 		return nil, fmt.Errorf("error saving new active keyset: %v", err)
 	}
+
+	m.logInfof("setting keyset '%v' to inactive", currentActiveKeyset.Id)
+	if err := m.db.UpdateKeysetActive(currentActiveKeyset.Id, false); err != nil {
+		return nil, fmt.Errorf("could not update active state of keyset in db: %v", err)
+	}
+
+	// only change the keysets in memory after the changes were saved in the db
+	currentActiveKeyset.Active = false
+	m.keysets[currentActiveKeyset.Id] = *currentActiveKeyset
+	m.activeKeyset = newKeyset
+	m.keysets[newKeyset.Id] = *newKeyset
 	m.logInfof("setting new keyset %v to active", newKeyset.Id)
 
 	return &nut02.Keyset{
